@@ -483,6 +483,63 @@ def batch_processes(max_n, seed, count, thorough):
     return res
 
 
+def overwrite_ok(shape, cards, wi) -> list:
+    """the destination file already exists: what it held before must not show in what is written. The path first
+    holds (a) the output itself followed by extra text, (b) the output of the same model with one more constraint
+    (the new output is a prefix-like part of the old one), (c) unrelated bytes; after transform() the file is exactly
+    the value returned, which is the value a fresh path gets."""
+    shape = totuple(shape)
+    cards = [tuple(c) for c in cards]
+    label, cls = WRITERS[wi]
+    out = []
+    with rt.TempDir() as d:
+        m = model(shape, cards)
+        fresh = os.path.join(d, 'fresh.' + label)
+        ret0 = cls(fresh, m).transform()
+        raw0 = open(fresh, 'rb').read()
+        ret0b = ret0 if isinstance(ret0, bytes) else ret0.encode('utf-8')
+        if raw0 != ret0b:
+            return ['%s writer: file differs from the returned value on a fresh path' % label]
+        big = model(shape, cards)
+        names = [f.name for f in big.get_features()]
+        big.ctcs.append(R.ctc('zlast', ('IMPLIES', names[-1], names[0])))
+        for tag, before in (('own-output-plus-trailing-text', raw0 + b'\nTRAILING TEXT\n'), ('output-of-a-larger-model', None), ('unrelated-bytes', b'\xff\xfe garbage ' * 50)):
+            p = os.path.join(d, tag + '.' + label)
+            if before is None:
+                cls(p, big).transform()
+            else:
+                open(p, 'wb').write(before)
+            ret = cls(p, m).transform()
+            raw = open(p, 'rb').read()
+            retb = ret if isinstance(ret, bytes) else ret.encode('utf-8')
+            if raw != retb or raw != raw0:
+                out.append('%s writer onto an existing file (%s): the file holds %d bytes, the value returned %d, a fresh path gets %d (shape %s cards %r)'
+                           % (label, tag, len(raw), len(retb), len(raw0), R.shape_str(shape), cards))
+    return out
+
+
+def batch_overwrite(max_n, seed):
+    rnd = random.Random(seed)
+    res = {'instances': 0, 'nontrivial': 0, 'violations': [], 'native_runs': 0}
+    shapes = [s for s in R.shapes(max_n) if R.n_features(s) >= 2]
+    for wi in range(len(WRITERS)):
+        for shape in rnd.sample(shapes, min(4, len(shapes))):
+            cards = rnd.choice(list(R.all_cards(shape)))
+            res['instances'] += 1
+            res['nontrivial'] += 1
+            res['native_runs'] += 4
+            try:
+                bad = overwrite_ok(shape, cards, wi)
+            except Exception as exc:
+                bad = ['%s writer raises %s: %s when the destination exists' % (WRITERS[wi][0], type(exc).__name__, exc)]
+            if bad:
+                res['violations'].append({'label': 'overwrite-existing-file', 'detail': bad[0], 'replay_func': 'overwrite_ok', 'replay_args': [shape, cards, wi]})
+                if len(res['violations']) >= 4:
+                    return res
+            res['sample'] = {'writer': WRITERS[wi][0], 'shape': R.shape_str(shape)}
+    return res
+
+
 def replay_pure(shape, cards, wi):
     shape = totuple(shape)
     cards = [tuple(c) for c in cards]
@@ -553,6 +610,7 @@ def batches(tier, seed):
     b = [('batch_pure', [N, lo, lo + step, seed + lo]) for lo in range(0, total, step)]
     b += [('batch_processes', [N, seed * 11 + i, 1 if tier == 'quick' else 6, tier != 'quick']) for i in range(4)]
     b += [('batch_history', [N, seed * 13 + i, 4 if tier == 'quick' else 24]) for i in range(4)]
+    b += [('batch_overwrite', [N, seed * 17 + i]) for i in range(2 if tier == 'quick' else 8)]
     return b
 
 
